@@ -9,6 +9,8 @@ import CookModel.Lemmas.SpansMeta
 import CookModel.Lemmas.SpansAnalysis
 import CookModel.Lemmas.SpansBytes
 import CookModel.Lemmas.AstBuild
+import CookModel.Lemmas.SpansUtf8
+import CookModel.Lemmas.SpansTexts
 /-
   C04  Every reported source location is in bounds, on char boundaries, faithful.
 
@@ -523,5 +525,103 @@ theorem C04_holds : C04_statement := fun env input =>
    (C04_analysis_meta_labels_ok env input).1, (C04_analysis_meta_labels_ok env input).2,
    fun d hd l hl => (C04_report_labels_sliceable env input).1 d hd d.labels (List.Perm.refl _) l hl,
    fun d hd l hl => (C04_report_labels_sliceable env input).2 d hd d.labels (List.Perm.refl _) l hl⟩
+
+/-! ### row 5a: the front-matter event in the source order; row 5b: fragment order inside every text -/
+
+/-- **The content events of a document, the `YAMLFrontMatter` event included, appear in source order without
+    overlapping.**  `Ev.srcSpanF` is `Ev.srcSpan` extended by the span of the YAML text for the front-matter event.
+    For every input: the spans of the content events of `PullParser` — front matter first if present, then texts,
+    ingredients, cookware, timers, metadata entries (`key.start .. value.end`) and named sections — are pairwise
+    disjoint and increasing in the order emitted (`SrcOrderedF`: each ends at or before the start of every later
+    one), and each is a valid span of the input.  The same for the metadata-only scanner. -/
+theorem C04_events_in_source_order_with_front_matter {α : Type} [Arith α] (cs : CharSpec) (ext : Ext) (s : List Char) :
+    SrcOrderedF (pullEvents (α := α) cs ext s).1.toList ∧
+    (∀ ev ∈ (pullEvents (α := α) cs ext s).1.toList, ∀ sp, ev.srcSpanF = some sp → SpanOK 0 s sp) ∧
+    SrcOrderedF (pullMetaEvents (α := α) cs ext s).1.toList ∧
+    (∀ ev ∈ (pullMetaEvents (α := α) cs ext s).1.toList, ∀ sp, ev.srcSpanF = some sp → SpanOK 0 s sp) :=
+  ⟨pullEvents_srcOrderedF cs ext s,
+   fun ev hev => (C04_event_spans_ok cs ext s ev hev).srcSpanF,
+   pullMetaEvents_srcOrderedF cs ext s,
+   fun ev hev => ((C04_meta_event_spans_ok cs ext s).1 ev hev).srcSpanF⟩
+
+/-- with front matter every content event of the body starts at or after `cooklang_offset`, and the YAML text
+    ends at or before it (the two facts `C04_events_in_source_order_with_front_matter` is assembled from; with
+    `C04_frontmatter_offsets`) -/
+theorem C04_body_events_after_front_matter {α : Type} [Arith α] (cs : CharSpec) (ext : Ext) (s : List Char)
+    (fm : FrontMatter) (h : parseFrontmatter cs s = some fm) :
+    ∃ l : List (Ev α), (pullEvents (α := α) cs ext s).1.toList =
+        .frontMatter (Text.fromStr fm.yamlText fm.yamlOffset) :: l ∧
+      (Text.fromStr fm.yamlText fm.yamlOffset).span.stop ≤ fm.cookOffset ∧
+      ∀ ev ∈ l, ev.notFM ∧ ∀ sp, ev.srcSpan = some sp → fm.cookOffset ≤ sp.start :=
+  pullEvents_frontMatter_first cs ext s fm h
+
+/-! non-vacuity: this input has front matter; `SrcOrderedF` rejects a front-matter event that does not lie
+    before a later text, which `SrcOrdered` (front matter has no `srcSpan`) accepts -/
+example : (parseFrontmatter toyCharSpec "---\na: 1\n---\nb".toList).map (fun fm => (fm.yamlOffset, fm.cookOffset)) =
+    some (4, 13) := by decide
+example : ¬ SrcOrderedF [Ev.frontMatter (α := Rat) ⟨[⟨['a'], 5, false⟩], 5, false⟩,
+    Ev.text ⟨[⟨['b'], 0, false⟩], 0, false⟩] := by
+  intro h
+  have := (List.pairwise_cons.mp h).1 (Ev.text ⟨[⟨['b'], 0, false⟩], 0, false⟩) (by simp) _ _ rfl rfl
+  revert this; decide
+example : SrcOrdered [Ev.frontMatter (α := Rat) ⟨[⟨['a'], 5, false⟩], 5, false⟩,
+    Ev.text ⟨[⟨['b'], 0, false⟩], 0, false⟩] := by
+  simp [SrcOrdered, Ev.srcSpan]
+
+/-- **The fragments of every text of every event are increasing, disjoint, non-empty slices of the input inside
+    the text's span** (document level).  `Ev.texts` lists every `Text` an event carries: the YAML text of the
+    front matter, metadata key and value, section name, step / text-block text (there the text's span IS the
+    event's span), name / alias / note / unit of an ingredient, name / alias / note of a cookware item, name / unit
+    of a timer.  For every input and every such text `t` of every event of `PullParser`: `t.span` is a valid span
+    of the input; consecutive and non-consecutive fragments are ordered, `f.stop ≤ g.offset` for `f` before `g`
+    (so they do not overlap); and every fragment is non-empty, is the input slice at its offset, and lies inside
+    `t.span`.  The same for the metadata-only scanner. -/
+theorem C04_event_text_fragments_ordered {α : Type} [Arith α] (cs : CharSpec) (ext : Ext) (s : List Char) :
+    (∀ ev ∈ (pullEvents (α := α) cs ext s).1.toList, ∀ t ∈ ev.texts,
+      SpanOK 0 s t.span ∧ t.frags.Pairwise (fun f g => f.stop ≤ g.offset) ∧
+      ∀ f ∈ t.frags, f.text ≠ [] ∧ SliceAt 0 s f.offset f.text ∧ t.span.start ≤ f.offset ∧ f.stop ≤ t.span.stop) ∧
+    (∀ ev ∈ (pullMetaEvents (α := α) cs ext s).1.toList, ∀ t ∈ ev.texts,
+      SpanOK 0 s t.span ∧ t.frags.Pairwise (fun f g => f.stop ≤ g.offset) ∧
+      ∀ f ∈ t.frags, f.text ≠ [] ∧ SliceAt 0 s f.offset f.text ∧ t.span.start ≤ f.offset ∧ f.stop ≤ t.span.stop) := by
+  obtain ⟨b, h⟩ := pullEvents_topInvO (α := α) cs ext s
+  obtain ⟨b', h'⟩ := pullMetaEvents_topInvO (α := α) cs ext s
+  exact ⟨fun ev hev t ht => ((h.ok ev hev).texts t ht).spelled, fun ev hev t ht => ((h'.ok ev hev).texts t ht).spelled⟩
+
+/-! non-vacuity: an ingredient event carries four texts; `TextOrd` rejects fragments in the wrong order -/
+example : (Ev.ingredient (α := Rat) ⟨⟨⟨⟨0⟩, ⟨0, 0⟩⟩, none, ⟨[⟨['a'], 1, false⟩], 1, false⟩, some ⟨[⟨['b'], 3, false⟩], 3, false⟩,
+    some ⟨⟨⟨⟨.number (.regular 1), ⟨5, 6⟩⟩, none⟩, some ⟨[⟨['g'], 7, false⟩], 7, false⟩⟩, ⟨5, 8⟩⟩,
+    some ⟨[⟨['n'], 10, false⟩], 10, false⟩⟩, ⟨0, 12⟩⟩).texts.length = 4 := rfl
+example : ¬ TextOrd ⟨[⟨['a'], 5, false⟩, ⟨['b'], 0, false⟩], 0, false⟩ := by
+  intro h
+  have := (List.pairwise_cons.mp h.1).1 ⟨['b'], 0, false⟩ (by simp)
+  revert this; decide
+
+/-! ### `is_char_boundary`, literally -/
+
+/-- On the bytes of an encoded string, Lean core's "first byte of a character" (`UInt8.IsUTF8FirstByte`) is exactly
+    "not a continuation byte `10xxxxxx`" (`isContByte b = false`, i.e. `b < 0x80 ∨ 0xC0 ≤ b`), which is exactly the
+    test `(b as i8) >= -0x40` of Rust's `u8::is_utf8_char_boundary` (`rustIsBoundaryByte`).  (On arbitrary bytes the
+    first two differ on `0xF8 ..= 0xFF`; no encoded string contains those.) -/
+theorem C04_first_byte_iff_not_continuation (input : List Char) (p : Nat) (h : p < input.utf8Encode.size) :
+    ((input.utf8Encode[p]'h).IsUTF8FirstByte ↔ isContByte (input.utf8Encode[p]'h) = false) ∧
+    (rustIsBoundaryByte (input.utf8Encode[p]'h) = !isContByte (input.utf8Encode[p]'h)) ∧
+    (isContByte (input.utf8Encode[p]'h) = true ↔ 0x80 ≤ input.utf8Encode[p]'h ∧ input.utf8Encode[p]'h < 0xC0) :=
+  ⟨utf8b_first_iff_not_cont input p h, (utf8b_rust_iff_not_cont _).1, (utf8b_rust_iff_not_cont _).2⟩
+
+/-- **`Boundary 0 input p` is literally Rust's `str::is_char_boundary(p)`** evaluated on the UTF-8 bytes of the input
+    (`input.utf8Encode` = the bytes of `String.ofList input`): `p == 0`, or — when `p < len` — the byte at `p` passes
+    `(b as i8) >= -0x40`, or — when `p >= len` — `p == len`.  With this every `SpanOK 0 input sp` of this file reads:
+    `sp.start <= sp.end <= input.len()`, `input.is_char_boundary(sp.start)`, `input.is_char_boundary(sp.end)`. -/
+theorem C04_boundary_is_rust_is_char_boundary (input : List Char) (p : Nat) :
+    Boundary 0 input p ↔
+      p = 0 ∨ (if h : p < input.utf8Encode.size then rustIsBoundaryByte (input.utf8Encode[p]'h) = true
+               else p = input.utf8Encode.size) :=
+  utf8b_boundary_iff_rust input p
+
+/-! non-vacuity: the second byte of `é` (0xA9) is a continuation byte and fails Rust's test; 0xF8 is neither a
+    continuation byte nor a first byte (why the statement is about the bytes of an encoded string) -/
+example : ['é'].utf8Encode.data = #[0xC3, 0xA9] ∧ isContByte 0xA9 = true ∧ rustIsBoundaryByte 0xA9 = false ∧
+    rustIsBoundaryByte 0xC3 = true := by decide
+example : isContByte 0xF8 = false ∧ ¬ (0xF8 : UInt8).IsUTF8FirstByte := by decide
 
 end Cook
